@@ -628,11 +628,17 @@ def reserved_prefix(chk, rid):
   for fi in rt.funcs.values():
     for c in walk_local(fi.node):
       if isinstance(c, ast.Call) and call_tail(c) == 'startswith' and c.args and \
-          const_str(c.args[0]) and 'var' in norm(c.func.value).lower() + ' v u_left':
+          const_str(c.args[0]):
         prefixes.add(const_str(c.args[0]))
   alloc = FnView(repo, 'rule_translate.NamesAllocator.AllocateVar')
   made = {const_str(x.left).split('%')[0] for x in walk_local(alloc.fi.node)
           if isinstance(x, ast.BinOp) and isinstance(x.op, ast.Mod) and const_str(x.left)}
+  made |= {x.values[0].value for x in walk_local(alloc.fi.node)
+           if isinstance(x, ast.JoinedStr) and x.values and isinstance(x.values[0], ast.Constant)
+           and isinstance(x.values[0].value, str)}
+  made |= {const_str(x.func.value).split('{')[0] for x in walk_local(alloc.fi.node)
+           if isinstance(x, ast.Call) and call_tail(x) == 'format' and
+           isinstance(x.func, ast.Attribute) and const_str(x.func.value)}
   prefixes = {p_ for p_ in prefixes if any(m_.startswith(p_) for m_ in made)}
   if not prefixes:
     raise AnalysisError('rule_translate: prefix of compiler-internal variables not recognised')
